@@ -7,3 +7,8 @@ import GoFlags.Props.C12
 #print axioms GoFlags.C12.comment_line_is_skipped
 #print axioms GoFlags.C12.description_lines_are_comments
 #print axioms GoFlags.C12.plain_line_reads_back_partial
+#print axioms GoFlags.C12.trimSpace_fix
+#print axioms GoFlags.C12.cut_eq_key
+#print axioms GoFlags.C12.readIniLine_key_value
+#print axioms GoFlags.C12.quote_shape
+#print axioms GoFlags.C12.string_value_round_trip
